@@ -317,7 +317,7 @@ def check_property(prop, tier, jobs, level_text, assumptions, functions_note="",
     os.makedirs(os.path.join(VERIF, "evidence"), exist_ok=True)
     os.makedirs(os.path.join(VERIF, "replays"), exist_ok=True)
     for f in os.listdir(os.path.join(VERIF, "replays")):
-        if f.startswith(prop + "_"):
+        if f.startswith(prop + "_") or f.startswith("unconfirmed_" + prop + "_"):
             os.unlink(os.path.join(VERIF, "replays", f))
     try:
         build_repo_bc()
@@ -389,6 +389,17 @@ def check_property(prop, tier, jobs, level_text, assumptions, functions_note="",
                     f.write(open(inp).read())
                 violations.append((j, v, dst))
             else:
+                # keep the assignment for triage (replays/unconfirmed_*): it is not a verdict
+                dst = os.path.join(VERIF, "replays", "unconfirmed_%s_%s_%s.txt" % (prop, re.sub(r"[^A-Za-z0-9_.-]", "_", j.name), os.path.basename(inp)[4:-4]))
+                try:
+                    with open(dst, "w") as f:
+                        f.write("# UNCONFIRMED property=%s job=%s harness=%s defines=%s\n# kind=%s fn=%s loc=%s\n# msg=%s\n" % (prop, j.name, j.harness, json.dumps(j.defines), v["kind"], v["fn"], v["loc"], v["msg"]))
+                        for n in v.get("notes", []):
+                            f.write("# note %s = %s\n" % (n[0], n[1]))
+                        f.write("# native output (tail): %s\n" % out[-600:].replace("\n", " | "))
+                        f.write(open(inp).read())
+                except Exception:
+                    pass
                 inconclusive.append("%s: counterexample [%s] %s in %s did not reproduce natively (engine/stub disagreement)" % (j.name, v["kind"], v["msg"], v["fn"]))
         if res.get("inconclusive"):
             inconclusive.append("%s: %s" % (j.name, res.get("inconclusive_why") or "solver gave no verdict"))
